@@ -106,7 +106,16 @@ pub(crate) fn extract_variable(
                 if block_contains_id(then_block, *expr_id)
                     || block_contains_id(else_block, *expr_id) =>
             {
-                break
+                // An `else if` has no braces of its own, so there is
+                // no room for a `let` before it or its condition.
+                if block_contains_id(else_block, *expr_id)
+                    && else_block.open_brace == else_block.close_brace
+                {
+                    return Err(
+                        "Cannot extract a variable from the condition of an `else if`.".to_owned(),
+                    );
+                }
+                break;
             }
             Expression_::Let(_, _, _) => {
                 enclosing_block_level_expr = Some(expr.clone());
